@@ -31,6 +31,7 @@ sn_val = z3.Function("cpd_state_names_val", Opaque, z3.ArraySort(Atom, Opaque))
 
 
 class CheckModel(Contract):
+    pure = True   # does not modify any pre-existing object
     file = "pgmpy/models/BayesianNetwork.py"
     qual = "BayesianNetwork.check_model"
 
